@@ -27,7 +27,7 @@ func init() { register("bytes", bytesComp{}) }
 
 func e2eDeadline(carrier string, n int) time.Duration {
 	d := 8*time.Second + time.Duration(n/50000)*time.Second
-	if carrier == "dns" {
+	if strings.HasPrefix(carrier, "dns") {
 		d = 60*time.Second + time.Duration(n/200)*time.Second
 	}
 	return d
@@ -64,7 +64,57 @@ func runSweep(carrier string, from, to, step int, seed uint64) (string, string) 
 	return "ok", ""
 }
 
+// specials: one logical connection; payloads made of the bytes that DNS presentation format escapes (and of every
+// byte value), in several sizes up to n, each echoed back intact before the next
+func runSpecials(carrier string, n int, seed uint64) (string, string) {
+	rig, err := NewRig(RigOpts{Carrier: carrier, Insecure: true})
+	if err != nil {
+		return "fail:rig", err.Error()
+	}
+	defer rig.Close()
+	c, err := rig.Dial("echo")
+	if err != nil {
+		return "fail:dial", err.Error()
+	}
+	defer c.Close()
+	dl := e2eDeadline(carrier, n)
+	pats := [][]byte{{0x5c}, {0x5c, 0x5c, 0x22, 0x2e, 0x5c, 0x00, 0xff, 0x5c}, {0x22}, {0x2e}, {0x00, 0x1f, 0x7f, 0xff}, nil}
+	for pi, pat := range pats {
+		for _, size := range []int{n / 4, n / 2, n} {
+			if size == 0 {
+				continue
+			}
+			data := make([]byte, size)
+			for i := range data {
+				if pat == nil {
+					data[i] = byte(i + int(seed))
+				} else {
+					data[i] = pat[(i+int(seed))%len(pat)]
+				}
+			}
+			if err := writeParts(c, data, 0, dl); err != nil {
+				return "fail:write", fmt.Sprintf("pattern %d, %d bytes: %v", pi, size, err)
+			}
+			got, err := readFullDeadline(c, size, dl)
+			if err != nil {
+				k := 0
+				for k < len(got) && got[k] == data[k] {
+					k++
+				}
+				return "fail:read", fmt.Sprintf("pattern %d (% x…), %d bytes: echo incomplete (%v); %d bytes matched", pi, data[:minInt(8, size)], size, err, k)
+			}
+			if !bytes.Equal(got, data) {
+				return "down-mismatch", fmt.Sprintf("pattern %d (% x…), %d bytes: echoed bytes differ", pi, data[:minInt(8, size)], size)
+			}
+		}
+	}
+	return "ok", ""
+}
+
 func runBytes(carrier, mode string, n, part int, seed uint64) (string, string) {
+	if mode == "specials" {
+		return runSpecials(carrier, n, seed)
+	}
 	if mode == "sweep" {
 		// n = last size, part = first size, step 1
 		return runSweep(carrier, part, n, 1, seed)
@@ -88,6 +138,19 @@ func runBytes(carrier, mode string, n, part int, seed uint64) (string, string) {
 	}
 	defer c.Close()
 	data := payload(seed, n)
+	if mode == "echo5c" {
+		// payload made of the bytes DNS presentation format escapes: backslashes, quotes, dots, control and high bytes
+		pat := []byte{0x5c, 0x5c, 0x22, 0x2e, 0x5c, 0x00, 0xff, 0x5c}
+		for i := range data {
+			data[i] = pat[(i+int(seed))%len(pat)]
+		}
+		if seed%2 == 0 {
+			for i := range data {
+				data[i] = 0x5c
+			}
+		}
+		mode = "echo"
+	}
 	dl := e2eDeadline(carrier, n)
 	switch mode {
 	case "echo":
@@ -220,6 +283,11 @@ func (bytesComp) Gen(r *Rand, tier string, emit func(string)) {
 	emit(fmt.Sprintf("udp sweep 200 1 %d", r.Next()%1000))
 	// the application writes 2 MiB and closes while the target is slow to read
 	emit(fmt.Sprintf("tcp upslow 2097152 0 %d", r.Next()%1000))
+	// DNS tunnel behind a resolver that does not relay NULL/PRIVATE records (falls back to TXT), payloads full of
+	// bytes that DNS presentation format escapes
+	emit("dnstxt specials 1300 0 1")
+	emit("tcp specials 70000 0 1")
+	emit("ws specials 70000 0 1")
 	emit(fmt.Sprintf("dns echo 1 0 %d", r.Next()%1000))
 	emit(fmt.Sprintf("dns echo 3000 0 %d", r.Next()%1000))
 	if tier == "thorough" {
@@ -233,6 +301,10 @@ func (bytesComp) Gen(r *Rand, tier string, emit func(string)) {
 			}
 			emit(fmt.Sprintf("%s echo 300 1 %d", c, r.Next()%1000))
 		}
+		emit("dnstxt specials 4000 0 2")
+		emit("dns specials 4000 0 1")
+		emit("dnstxt echo5c 700 0 2")
+		emit(fmt.Sprintf("dnstxt echo 3000 0 %d", r.Next()%1000))
 		emit(fmt.Sprintf("dns sweep 600 151 %d", r.Next()%1000))
 		emit(fmt.Sprintf("stdio sweep 400 1 %d", r.Next()%1000))
 		emit(fmt.Sprintf("tcptls sweep 400 1 %d", r.Next()%1000))
